@@ -61,9 +61,14 @@ def make_case(rng, max_len=40):
         cfg["entry"] = "graph_serialize_options"
     elif cfg["entry"] == "graph_serialize" and rng.random() < .3:
         cfg["entry"] = "graph_serialize_path"       # destination given as a file name
-    if rng.random() < .15 and stmts:
+    if cfg["entry"] in ("flat_frames", "flat_to_file", "stream_frames_gen") and rng.random() < .35:
+        cfg["plain_tuples"] = True            # plain (s, p, o[, g]) tuples instead of pyjelly's Triple / Quad objects
+        if cfg["entry"] != "stream_frames_gen" and cfg["delimited"] and rng.random() < .5:
+            cfg["no_options"] = True          # ... and no options at all: everything guessed from the first statement
+            cfg["preset"] = (4000, 150, 32)
+    if rng.random() < .15 and stmts and not cfg.get("no_options"):
         cfg["failed_attempt_first"] = rng.randint(1, len(stmts))
-    if rng.random() < .15:
+    if rng.random() < .15 and not cfg.get("no_options"):
         # 'all lookup presets': prefix / datatype tables smaller than what one statement may need.  The serializer
         # may refuse such a statement (C18); whatever it does write must still read back as the input.
         n, p, d = cfg["preset"]
